@@ -62,6 +62,16 @@ fn encoder_case(ctx: &Ctx, idx: u64, r: &mut Rng) -> Vec<CaseOut> {
         o.dict_size = 1 << 26;
     }
     let lzma2 = if o.lc + o.lp > 4 { false } else { r.chance(1, 2) };
+    let mut len = r.log_range(1, 300_000) as usize;
+    // LZMA2 with independent chunks: every max(chunk_size, dict_size) bytes a fresh encoder is started;
+    // a small dictionary and several times as much input, so that it really happens
+    let chunk: Option<u64> = if lzma2 && idx >= 10 && r.chance(1, 2) {
+        o.dict_size = *r.pick(&[4096u32, 65536, 1 << 18]);
+        len = o.dict_size as usize * (2 + r.usize_below(3)) + r.usize_below(5000);
+        Some(*r.pick(&[1u64, o.dict_size as u64, o.dict_size as u64 + 1000]))
+    } else {
+        None
+    };
     let estimate_kib = match catch(|| o.get_memory_usage()) {
         Ok(e) => e,
         Err(p) => {
@@ -73,10 +83,15 @@ fn encoder_case(ctx: &Ctx, idx: u64, r: &mut Rng) -> Vec<CaseOut> {
             )]
         }
     };
-    let len = r.log_range(1, 300_000) as usize;
     let fam = *r.pick(&[Family::Text, Family::Random, Family::Exe]);
     let data = gen::gen_data(r, fam, len);
-    let wname = if lzma2 { "LZMA2Writer" } else { "LZMAWriter" };
+    let wname = if !lzma2 {
+        "LZMAWriter"
+    } else if chunk.is_some() {
+        "LZMA2Writer[chunk_size]"
+    } else {
+        "LZMA2Writer"
+    };
     let cell = format!(
         "encoder|{wname}|{}|{}|{}|lclp{}",
         gen::mode_name(o.mode),
@@ -84,12 +99,12 @@ fn encoder_case(ctx: &Ctx, idx: u64, r: &mut Rng) -> Vec<CaseOut> {
         gen::dict_class(o.dict_size),
         if o.lc + o.lp > 4 { ">4" } else { "<=4" }
     );
-    let desc = format!("{wname} {} data={len}B estimate={estimate_kib} KiB", gen::opts_desc(&o));
+    let desc = format!("{wname} {} chunk_size={chunk:?} data={len}B estimate={estimate_kib} KiB", gen::opts_desc(&o));
     crate::mt::wait_quiet();
     let base = alloc::window_begin();
     let res = catch(|| -> io::Result<()> {
         if lzma2 {
-            let mut w = LZMA2Writer::new(Null(0), LZMA2Options { lzma_options: o.clone(), chunk_size: None });
+            let mut w = LZMA2Writer::new(Null(0), LZMA2Options { lzma_options: o.clone(), chunk_size: chunk.and_then(std::num::NonZeroU64::new) });
             w.write_all(&data)?;
             w.finish()?;
         } else {
